@@ -47,18 +47,19 @@ Siblings == {
   Ent("notes.txt", ".txt", "file", "ok",     <<>>),
   Ent("a.p.bak",   ".bak", "file", "ok",     <<>>),
   Ent("sub.p",     ".p",   "dir",  "ok",     <<>>),
-  Ent(".p",        ".p",   "file", "ok",     <<>>) }      \* nothing before the extension: still a file whose name ends in .p
+  Ent(".p",        ".p",   "file", "ok",     <<>>),      \* nothing before the extension: still a file whose name ends in .p
+  Ent("ln.p",      ".p",   "link", "ok",     <<>>) }      \* a symbolic link to a script file kept elsewhere: read like the file it names      \* nothing before the extension: still a file whose name ends in .p
 
 \* what the selected main.p may contain: nothing special, or one or two use() calls
 MainUses == { <<>>, <<"lib.p">>, <<"other.ppl">>, <<"bad.p">>, <<"chk.ppl">>, <<"lnk.p">>, <<"via.p">>, <<"cyc.p">>,
-              <<"notes.txt">>, <<"a.p.bak">>, <<"sub.p">>, <<"lib">>, <<"main.ppl">>, <<"lib.p", "other.ppl">>, <<"via.p", "lib.p">>, <<".p">> }
+              <<"notes.txt">>, <<"a.p.bak">>, <<"sub.p">>, <<"lib">>, <<"main.ppl">>, <<"lib.p", "other.ppl">>, <<"via.p", "lib.p">>, <<".p">>, <<"ln.p">> }
 \* what -s may name
-Selections == {"main.p", "other.ppl", "via.p", "bad.p", "lnk.p", "notes.txt", "sub.p", "absent.p", "main", ".p"}
+Selections == {"main.p", "other.ppl", "via.p", "bad.p", "lnk.p", "notes.txt", "sub.p", "absent.p", "main", ".p", "ln.p"}
 
 Main(u) == Ent("main.p", ".p", "file", "ok", u)
 
 (* ------------------------- declarative definition ------------------------ *)
-IsScript(e) == e.type = "file" /\ e.ext \in {".p", ".ppl"}
+IsScript(e) == e.type \in {"file", "link"} /\ e.ext \in {".p", ".ppl"}
 Scripts(dir) == {e \in dir : IsScript(e)}
 Names(S) == {e.name : e \in S}
 ByName(S, n) == CHOOSE e \in S : e.name = n
